@@ -177,6 +177,31 @@ func c33TableEvents() []c33Event {
 	return ev
 }
 
+// c33AliasEvents: page-independence sub-exploration. Event 0 (machine) is only used in the fixed
+// prefix [machine, machine]; the alphabet proper is events 1..: pages(n, p, c=1, r in {1,2,4}),
+// poke(n, p), peek(n, p) for n in {0,1}, p in {X=0x20, Y=0x21}.
+func c33AliasEvents() []c33Event {
+	var ev []c33Event
+	add := func(op OperationType, name string, regs ...uint64) {
+		e := c33Event{Op: op, Name: name, Blk: -1}
+		copy(e.R[:], regs)
+		ev = append(ev, e)
+	}
+	add(MachineOp, "machine(A,pc=0)", c33Data+c33OffBlobA, uint64(len(c33Blobs[0])), 0)
+	for n := uint64(0); n <= 1; n++ {
+		for pi, p := range []uint64{0x20, 0x21} {
+			pn := []string{"X", "Y"}[pi]
+			for _, rr := range []uint64{1, 2, 4} {
+				add(PagesOp, fmt.Sprintf("pages(%d,%s,r=%d)", n, pn, rr), n, p, 1, rr)
+			}
+			add(PokeOp, fmt.Sprintf("poke(%d,%s)", n, pn), n, c33Data+c33OffPoke, p*ZP+8, 8)
+			// each (n,p) peeks into its own 8 bytes of the scratch page
+			add(PeekOp, fmt.Sprintf("peek(%d,%s)", n, pn), n, c33Scratch+16*(2*n+uint64(pi)+1), p*ZP+8, 8)
+		}
+	}
+	return ev
+}
+
 var c33BlockGas = []uint64{0, 1, 100}
 
 func c33Block(gas uint64) []byte {
@@ -716,7 +741,9 @@ func c33RunPart(r *vlib.Run, part string, evs []c33Event, hist []int, check bool
 			r.Class("op=" + opn + " not-judged")
 			continue
 		}
-		if part == "table" {
+		if part == "alias" {
+			r.Class(fmt.Sprintf("alias op=%s model=%s", opn, want.Branch))
+		} else if part == "table" {
 			live := len(model.M)
 			if e.Op == ExpungeOp && want.Branch == "ok" {
 				live++ // the model already removed it
@@ -823,6 +850,28 @@ func TestVerif_C33(t *testing.T) {
 	if r.IsReplay(&rc) {
 		if rc.Part == "table" {
 			c33RunPart(r, "table", c33TableEvents(), rc.Hist, true)
+		} else if rc.Part == "alias" {
+			// process-lifetime state is part of this sub-exploration: replay every alias history that
+			// precedes the recorded one in enumeration order (unchecked), then the recorded one
+			aev := c33AliasEvents()
+			done := false
+			for n := 1; n <= 5 && !done; n++ {
+				vlib.Sequences(len(aev)-1, n, func(sq []int) {
+					if done {
+						return
+					}
+					h := []int{0, 0}
+					for _, x := range sq {
+						h = append(h, x+1)
+					}
+					if fmt.Sprint(h) == fmt.Sprint(rc.Hist) {
+						done = true
+						return
+					}
+					c33RunPart(r, "alias", aev, h, false)
+				})
+			}
+			c33RunPart(r, "alias", aev, rc.Hist, true)
 		} else {
 			c33Run(r, evs, rc.Hist, true)
 		}
@@ -871,6 +920,47 @@ func TestVerif_C33(t *testing.T) {
 				}
 			})
 		}
+	}
+
+	// page-independence sub-exploration ("pages are independent byte arrays"): from two machines,
+	// EVERY history of length 1..4 (quick) / 1..5 (thorough) over the 20 events of c33AliasEvents,
+	// checked at its last event against the one-step model. No dedup here: two states with equal
+	// bytes but different sharing of backing arrays must not be merged. Because the histories run one
+	// after the other in the same process, a page array that survives a history (package-level state)
+	// shows up in every later history; the explicit re-entry case at the end asserts it once more:
+	// a fresh machine's r=1 page reads zero after all the unrelated histories.
+	{
+		aev := c33AliasEvents()
+		adepth := vlib.Pick(r, 4, 5)
+		aidx := uint64(1 << 41)
+		for n := 1; n <= adepth; n++ {
+			vlib.Sequences(len(aev)-1, n, func(sq []int) {
+				aidx++
+				if !r.Mine(aidx) {
+					return
+				}
+				h := []int{0, 0}
+				for _, x := range sq {
+					h = append(h, x+1)
+				}
+				r.Space(1)
+				if c33RunPart(r, "alias", aev, h, true) != "" {
+					r.Trace()
+				}
+			})
+		}
+		// re-entry: pages(0,X,r=1) on fresh machines, then peek(0,X) must deliver zeros
+		find := func(name string) int {
+			for i, e := range aev {
+				if e.Name == name {
+					return i
+				}
+			}
+			panic("c33: no alias event " + name)
+		}
+		r.Space(2)
+		c33RunPart(r, "alias", aev, []int{0, 0, find("pages(0,X,r=1)")}, true)
+		c33RunPart(r, "alias", aev, []int{0, 0, find("pages(0,X,r=1)"), find("peek(0,X)")}, true)
 	}
 
 	// start worlds = histories of real events applied first: the empty table, and one machine with a
